@@ -45,7 +45,7 @@ ASSUME = {
                            "the executable threshold 16*(n+m)+2000 is a test bound; the proved constants are in Props/C13.lean"],
     "C15": _BASE_ASSUME + ["atomicity and ordering of AtomicPtr, tearing, data races in unsafe Send/Sync impls are trusted (not expressible in the model); the real runs are fresh-process barrier releases on this 16-core x86_64 host only"],
     "C17": _BASE_ASSUME + ["the allocator is observed by a counting #[global_allocator] on the calling thread; the model only carries the ownership bookkeeping"],
-    "C09": _BASE_ASSUME + ["configurations exercised: host AVX2, forced SSE2 / fallback via hook H3, emulated NEON and simd128 builds (cfg-rewritten copy of the working tree), alloc-only and +avx2 builds in thorough; big-endian, 16/32-bit usize and the rustc-dep-of-std feature are not covered"],
+    "C09": _BASE_ASSUME + ["configurations exercised: host AVX2, forced SSE2 / fallback via hook H3, emulated NEON and simd128 builds and a build with no vector module at all (cfg-rewritten copies of the working tree), alloc-only and +avx2 builds in thorough; big-endian, 16/32-bit usize and the rustc-dep-of-std feature are not covered"],
 }
 for _p in ["C%02d" % i for i in range(1, 20)]:
     ASSUME.setdefault(_p, _BASE_ASSUME)
@@ -844,6 +844,8 @@ BYTE_CFGS_QUICK = [
     ("nosse2", "swar", []),
     ("neon", "neon", ["neon"]),
     ("simd128", "simd128", ["simd128"]),
+    # a target with no vector module at all (the `not(any(x86_64, wasm32+simd128, aarch64))` arms)
+    ("other", "swar", []),
 ]
 BYTE_CFGS_THOROUGH = BYTE_CFGS_QUICK + [("alloconly", "sse2", []), ("avx2ct", "avx2", [])]
 UNTRACED = {"avx2": [16, 32], "sse2": [16, 32]}
@@ -1080,7 +1082,8 @@ GENERATORS.update({"C01": g_c01, "C02": g_c02, "C07": g_c07, "C06": g_c06})
 # substring search at API level (C03 C04 C08 C10 C16 C17)
 
 # (executor variant, cfg token of the ops)
-MM_CFGS_QUICK = [("host", "avx2"), ("noavx2", "sse2"), ("nosse2", "fallback"), ("neon", "neon"), ("simd128", "simd128")]
+MM_CFGS_QUICK = [("host", "avx2"), ("noavx2", "sse2"), ("nosse2", "fallback"), ("neon", "neon"), ("simd128", "simd128"),
+                 ("other", "fallback")]
 MM_UNTRACED = {"avx2": [16, 32], "sse2": [16, 32], "fallback": None, "neon": None, "simd128": None}
 
 
